@@ -106,6 +106,22 @@ def nogood_primitives(ctx, lib):
     _run(ctx, "nogood_primitives", ctx.cfg, fn)
 
 
+def iterator(ctx, lib, which):
+    """which = 'two' (candidates of the stable enumeration) or 'three' (candidates of the complete enumeration): the C20 obligations of that iterator only"""
+    from rules import C20
+
+    def fn(c):
+        C20.F_frozen_new(c, lib)
+        if which == "three":
+            C20.three_next(c, lib)
+            C20.three_decrement(c, lib)
+        else:
+            C20.two_next(c, lib)
+        other = "two" if which == "three" else "three"
+        c.obligations = [o for o in c.obligations if not str(o.key).startswith(other + ".") and not (which == "two" and o.rule == "C20.T-digits")]
+    _run(ctx, "iterator-" + which, ctx.cfg, fn)
+
+
 def semantics_base(ctx, lib):
     """everything an answer computed from a parsed ADF on any back-end rests on"""
     kernel_build(ctx, lib)
